@@ -82,6 +82,7 @@ Section HashInfoProofs.
     nth_error (groups_from fi files) i =
     Some (match f with [] => None | _ => Some (sign_file' (fi + N.of_nat i) f) end).
   Proof.
+    clear bs_pos.
     induction files as [|g r IH]; intros fi i f Hn; [destruct i; discriminate|].
     destruct i as [|i]; cbn [nth_error groups_from] in *.
     - inversion Hn; subst. rewrite N.add_0_r. reflexivity.
